@@ -840,6 +840,122 @@ def r03_8(rep: Report) -> None:
                      f'`{norm(st)[:80]}`: the reset saio is not written with the single entry [{sorted(pos_names)[0]}]', st)
 
 
+def _reads_source(n: ast.AST) -> bool:
+    return any(isinstance(c, ast.Call) and isinstance(c.func, ast.Attribute) and c.func.attr in ('read', 'get', 'peek', 'parse')
+               and norm(c.func.value).split('.')[0] in ('src', 'r', 'reader') or
+               (isinstance(c, ast.Call) and isinstance(c.func, ast.Attribute) and c.func.attr == 'parse'
+                and any(norm(a) == 'src' for a in c.args))
+               for c in ast.walk(n))
+
+
+def r03_10(rep: Report) -> None:
+    """R03.10  premise of R03.2: `senc.samples[0].offset` - what find_first_cenc_sample adds to the position of the
+    senc box - is the distance from the start of the box to the first byte of the entry.  The parser either
+    *measures* it (`src.tell() - <box>['position']`, taken before the entry is read, against the senc's own
+    record), or computes it; a computed offset must at least change with every optional block the box parser
+    reads before the entries (the 20-byte algorithm / IV size / KID override under `flags & 1`): two paths that
+    consume different numbers of bytes cannot share one offset."""
+    rid = 'R03.10'
+    tree = rep.repo.tree(MP4)
+    aux = need(find_class(tree, 'CencSampleAuxiliaryData'), 'CencSampleAuxiliaryData')
+    ap = need(find_func(aux, 'parse', raw=True) or find_func(aux, 'parse'), 'CencSampleAuxiliaryData.parse')
+    construct = f'{MP4}::CencSampleAuxiliaryData.parse'
+    params = [a.arg for a in ap.args.args if a.arg not in ('clz', 'cls', 'self')]
+    # the value stored under "offset"
+    val = at = None
+    for n in ast.walk(ap):
+        if isinstance(n, ast.Dict):
+            for k, v in zip(n.keys, n.values):
+                if isinstance(k, ast.Constant) and k.value == 'offset':
+                    val, at = v, n
+        elif isinstance(n, ast.Assign) and isinstance(n.targets[0], ast.Subscript) \
+                and isinstance(n.targets[0].slice, ast.Constant) and n.targets[0].slice.value == 'offset':
+            val, at = n.value, n
+    if val is None:
+        raise AnalysisError('CencSampleAuxiliaryData.parse: no "offset" entry is stored')
+
+    def measured(e: ast.AST, src_names: set[str]) -> str | None:
+        """the record whose position is subtracted when e is `<src>.tell() - <rec>['position']`"""
+        if isinstance(e, ast.BinOp) and isinstance(e.op, ast.Sub) and isinstance(e.left, ast.Call) \
+                and isinstance(e.left.func, ast.Attribute) and e.left.func.attr == 'tell' \
+                and norm(e.left.func.value) in src_names and isinstance(e.right, ast.Subscript) \
+                and isinstance(e.right.slice, ast.Constant) and e.right.slice.value == 'position':
+            return norm(e.right.value)
+        if isinstance(e, ast.BinOp) and isinstance(e.op, ast.Sub) and isinstance(e.left, ast.Call) \
+                and isinstance(e.left.func, ast.Attribute) and e.left.func.attr == 'tell' \
+                and norm(e.left.func.value) in src_names and isinstance(e.right, ast.Attribute) and e.right.attr == 'position':
+            return norm(e.right.value)
+        return None
+    senc = need(find_class(tree, 'CencSampleEncryptionBox'), 'CencSampleEncryptionBox')
+    sp = need(find_func(senc, 'parse', raw=True) or find_func(senc, 'parse'), 'CencSampleEncryptionBox.parse')
+    c2 = f'{MP4}::CencSampleEncryptionBox.parse'
+    calls = [c for c in ast.walk(sp) if isinstance(c, ast.Call) and norm(c.func).endswith('CencSampleAuxiliaryData.parse')]
+    if not calls:
+        raise AnalysisError('CencSampleEncryptionBox.parse: the entries are no longer parsed by CencSampleAuxiliaryData.parse')
+    own = {norm(a.targets[0]) for a in ast.walk(sp) if isinstance(a, ast.Assign) and isinstance(a.value, ast.Call)
+           and norm(a.value.func).endswith('FullBox.parse')} | {'rv'}
+
+    def arg_for(call: ast.Call, pname: str) -> ast.AST | None:
+        kw = next((k.value for k in call.keywords if k.arg == pname), None)
+        if kw is not None:
+            return kw
+        i = params.index(pname)
+        return call.args[i] if i < len(call.args) else None
+    rec = measured(val, {params[0]})
+    if rec is not None:
+        early = [c for c in ast.walk(ap) if isinstance(c, ast.Call) and isinstance(c.func, ast.Attribute)
+                 and c.func.attr in ('read', 'get') and c.lineno < at.lineno]
+        if early:
+            rep.fail(rid, construct, 'offset measured before the entry is read',
+                     f'`{short(early[0], 50)}` consumes bytes of the entry before its position is taken', early[0])
+        elif rec in params:
+            bad = [c for c in calls if norm(arg_for(c, rec) or ast.Constant(None)) not in own]
+            if bad:
+                rep.fail(rid, c2, 'offset measured from the senc box',
+                         f'`{short(bad[0], 70)}` hands `{norm(arg_for(bad[0], rec) or ast.Constant(None))}` over as the record whose '
+                         'position the entry offset is measured from - not the record of the senc box being parsed', bad[0])
+            else:
+                rep.ok(rid, construct, 'offset measured from the senc box', norm(val))
+        else:
+            rep.fail(rid, construct, 'offset measured from the senc box',
+                     f'the offset is measured against `{rec}`, which is not the record the senc parser hands over', at)
+        return
+    if not (isinstance(val, ast.Name) and val.id in params):
+        raise AnalysisError(f'CencSampleAuxiliaryData.parse: "offset" is `{norm(val)}` - neither measured nor handed in (unknown idiom)')
+    # handed in: measured by the caller, or computed there
+    for c in calls:
+        a = arg_for(c, val.id)
+        if a is None:
+            raise AnalysisError('CencSampleEncryptionBox.parse: the offset argument of the entry parser was not found')
+        if measured(a, {'src'}) in own:
+            rep.ok(rid, c2, 'offset measured from the senc box', norm(a))
+            continue
+        if not isinstance(a, ast.Name):
+            raise AnalysisError(f'CencSampleEncryptionBox.parse: the entry offset `{norm(a)}` is neither measured nor a running local')
+        var = a.id
+        defs = [d for d in ast.walk(sp) if isinstance(d, (ast.Assign, ast.AugAssign, ast.AnnAssign))
+                and norm(d.targets[0] if isinstance(d, ast.Assign) else d.target) == var]
+        if any(isinstance(d, ast.Assign) and measured(d.value, {'src'}) in own and d.lineno <= c.lineno for d in defs) \
+                and not any(isinstance(d, ast.AugAssign) for d in defs):
+            rep.ok(rid, c2, 'offset measured from the senc box', f'{var} = src.tell() - position')
+            continue
+        # computed: every optional block read before the entries must change it
+        blocks = [i for i in sp.body if isinstance(i, ast.If) and i.lineno < c.lineno
+                  and _reads_source(ast.Module(body=i.body, type_ignores=[])) != _reads_source(ast.Module(body=i.orelse, type_ignores=[]))]
+        missing = [i for i in blocks if not any(d.lineno >= i.lineno and d.lineno <= getattr(i, 'end_lineno', i.lineno) for d in defs)
+                   and not any(any(norm(x) == norm(t) for x in ast.walk(d.value) for t in ast.walk(i.test)
+                                   if isinstance(t, (ast.BinOp, ast.Compare)) and isinstance(x, (ast.BinOp, ast.Compare)))
+                               for d in defs)]
+        if missing:
+            i = missing[0]
+            rep.fail(rid, c2, f'computed offset accounts for the block under {short(i.test, 30)}',
+                     f'the entry offset `{var}` is computed ({"; ".join(short(d, 40) for d in defs[:2])}), and nothing changes it for the '
+                     f'block the parser reads under `{norm(i.test)}` (line {i.lineno}): for a box with that block every entry offset is '
+                     'short by the size of the block - the saio offset computed from it points into the override, not at the first entry', i)
+        else:
+            rep.ok(rid, c2, 'computed offset changes with every optional block', f'{len(blocks)} optional block(s)')
+
+
 def r03_9(rep: Report) -> None:
     """boxes that depend on another box (saio on senc / tfhd / moof through DEPENDS_UPON) are kept as raw bytes
     until the box they depend on announces `change.<type>`; the announcement is what makes their offset fix-up
@@ -938,6 +1054,7 @@ def analyse(rep: Report) -> None:
     rep.rule('R03.5', 'box insertions reach the offset resets before encode', floor=6)
     rep.rule('R03.7', 'a re-based fragment resets stored offsets and leaves room for the fix-ups on every path', floor=2)
     rep.rule('R03.9', 'every assignment of a public field of a box announces the change to the boxes that depend on it', floor=1)
+    rep.rule('R03.10', 'the offset of a senc entry is its distance from the start of the senc box (premise of the saio form)', floor=1)
     rep.rule('R03.8', 'a reset saio is written with one entry unless there is no senc sample', floor=2)
     rep.rule('R04.3', 'edit API invalidates cached encodings; two-pass encode order (shared with C04)',
              floor=10)
@@ -947,4 +1064,5 @@ def analyse(rep: Report) -> None:
     r03_4_5(rep)
     r03_8(rep)
     r03_9(rep)
+    r03_10(rep)
     r04_3(rep)
